@@ -800,9 +800,27 @@ func TestC19_Concurrent(t *testing.T) {
 			yields[w] = append(yields[w], rapid.IntRange(0, 3).Draw(rt, "yield"))
 			kinds[o.K]++
 		}
+		// pure readers beside the workers: two or three goroutines that only take the pool's read
+		// lock (what RPC clients and the block producer do all the time), so that reader/reader
+		// interleavings occur, not only reader/writer ones
+		readers := rapid.SampledFrom([]int{0, 2, 2, 3}).Draw(rt, "readers")
+		for r := 0; r < readers; r++ {
+			var rp []op
+			var ry []int
+			for i, k := 0, rapid.IntRange(3, 10).Draw(rt, "reads"); i < k; i++ {
+				rp = append(rp, op{K: "read", Read: rapid.SampledFrom([]int{0, 1, 3, 3, 0, 1, 2, 4, 5, 6, 7}).Draw(rt, "read")})
+				ry = append(ry, rapid.IntRange(0, 3).Draw(rt, "yield"))
+				kinds["read"]++
+			}
+			plan, yields = append(plan, rp), append(yields, ry)
+		}
+		workers += readers
 		journal := rapid.IntRange(0, 2).Draw(rt, "journal") == 0
 		e := newEnvJ(true, journal)
 		labels := map[string]bool{}
+		if readers > 0 {
+			labels["pure_readers"] = true
+		}
 		if journal {
 			labels["mode_journal"] = true
 		}
